@@ -113,6 +113,9 @@ CheckFatalFirst(e) ==
   /\ Judge("C04", "NoPanic", ~e.panicked, e.what, "no panic")
   /\ Judge("C03", "FatalDatagramFailsTheCall", e.failed, <<e.what, e.nreq>>, "the call fails")
   /\ Judge("C03", "NoSecondRequest", e.nreq = 1, <<e.what, e.nreq>>, 1)
+  \* (the same count under the properties that own "exactly one request per call": their checks run this pass too)
+  /\ Judge("C01", "ExactlyOneRequest", e.nreq = 1, <<e.what, e.nreq>>, 1)
+  /\ Judge("C06", "OneRequestPerCall", e.nreq = 1, <<e.what, e.nreq>>, 1)
 
 \* C08 at the schedule "A's transport has returned, B runs to completion, only then does A look at its bytes"
 \* (Transport!Finish(a) ... Return(a)): each call's result is the interpretation of the reply to its OWN request
